@@ -356,7 +356,7 @@ func (g *c36Gen) rule() c36Rule {
 		return c36Rule{Kind: "zero"}
 	default:
 		g.uid++ // every b/d rule of a case has its own duration, so the reported limiter identifies the rule
-		base := rapid.SampledFrom([]int{4, 4, 3000, 3000, 60000}).Draw(g.rt, "durClass")
+		base := rapid.SampledFrom([]int{3000, 4, 60000, 4, 3000}).Draw(g.rt, "durClass")
 
 		return c36Rule{Kind: "bd", Burst: rapid.IntRange(1, 4).Draw(g.rt, "burst"), Ms: base + g.uid}
 	}
@@ -391,7 +391,7 @@ func (g *c36Gen) ruleMap(allowEmpty bool) c36Map {
 func (g *c36Gen) kind(c *c36Config, kind string, initial bool) {
 	switch kind {
 	case "clientid":
-		c.HasClientID = rapid.IntRange(0, 3).Draw(g.rt, "hasClientID") > 0
+		c.HasClientID = rapid.IntRange(0, 3).Draw(g.rt, "hasClientID") < 3
 		c.ClientID = map[string]c36Map{}
 
 		if c.HasClientID {
@@ -402,7 +402,7 @@ func (g *c36Gen) kind(c *c36Config, kind string, initial bool) {
 			}
 		}
 	case "net":
-		c.HasNets = rapid.IntRange(0, 3).Draw(g.rt, "hasNets") > 0
+		c.HasNets = rapid.IntRange(0, 3).Draw(g.rt, "hasNets") < 3
 		c.Nets = nil
 
 		if c.HasNets {
@@ -412,7 +412,7 @@ func (g *c36Gen) kind(c *c36Config, kind string, initial bool) {
 			}
 		}
 	case "node":
-		c.HasNodes = rapid.IntRange(0, 3).Draw(g.rt, "hasNodes") > 0
+		c.HasNodes = rapid.IntRange(0, 3).Draw(g.rt, "hasNodes") < 3
 		c.Nodes = map[string]c36Map{}
 
 		if c.HasNodes {
@@ -644,13 +644,267 @@ func c36Enforce(t ev.TB, r *ev.Rec, s *c36Stream, cfgDesc string) {
 	}
 }
 
+// c36Run is one rate-limit handler with its model: rule configuration, membership, node table, streams.
+type c36Run struct {
+	r       *ev.Rec
+	w       *c36World
+	cfg     *c36Config
+	ms      *c36Membership
+	rules   *launch.RateLimiterRules
+	h       *launch.RateLimitHandler
+	streams map[string]*c36Stream
+	order   []*c36Stream
+	nodeOf  map[string]string
+	epoch   int
+	cfgDesc string
+	initial string
+	fp      strings.Builder
+	classes map[string]bool
+	nontriv bool
+	sample  []string
+}
+
+func (x *c36Run) newHash() {
+	x.ms.n++
+	x.ms.hash = valuehash.NewSHA256([]byte(fmt.Sprintf("suffrage-state-%d", x.ms.n)))
+}
+
+func c36NewRun(t ev.TB, r *ev.Rec, w *c36World, cfg *c36Config, members map[string]bool) *c36Run {
+	x := &c36Run{
+		r: r, w: w, cfg: cfg, ms: &c36Membership{members: members},
+		streams: map[string]*c36Stream{}, nodeOf: map[string]string{}, classes: map[string]bool{},
+	}
+	x.newHash()
+
+	ms := x.ms
+	x.rules = launch.NewRateLimiterRules()
+	x.rules.SetIsInConsensusNodesFunc(func() (util.Hash, func(base.Address) bool, error) {
+		if ms.err {
+			return nil, nil, errors.New("proof not found")
+		}
+
+		return ms.hash, func(a base.Address) bool { return ms.members[a.String()] }, nil
+	})
+
+	for _, k := range c36Kinds {
+		c36Apply(t, x.rules, cfg, k)
+	}
+
+	args := launch.NewRateLimitHandlerArgs()
+	args.Rules = x.rules
+
+	h, err := launch.NewRateLimitHandler(args)
+	if err != nil {
+		t.Fatalf("harness: %v", err)
+	}
+
+	x.h = h
+	x.cfgDesc = cfg.String()
+	x.initial = x.cfgDesc
+	x.fp.WriteString(x.cfgDesc)
+
+	return x
+}
+
+// updated is called after the model configuration of `kind` was replaced.
+func (x *c36Run) updated(t ev.TB, kind string) {
+	c36Apply(t, x.rules, x.cfg, kind)
+	x.epoch++
+	x.cfgDesc = x.cfg.String()
+	fmt.Fprintf(&x.fp, "|U:%s", x.cfgDesc)
+	x.classes["update:"+kind] = true
+}
+
+func (x *c36Run) membership(what string) {
+	x.epoch++
+	x.classes["membership-change"] = true
+	fmt.Fprintf(&x.fp, "|M%s", what)
+}
+
+// request sends one request through RateLimitHandler.Func and judges the selection clause.
+// hint: -1 = the client-id key is absent from the context, 0 = empty id, 1..3 = c1..c3.
+func (x *c36Run) request(t ev.TB, ai, hi, hint int, reg base.Address) {
+	r, w, cfg := x.r, x.w, x.cfg
+	addr, handler := w.addrs[ai], w.handlers[hi]
+	clientID := ""
+
+	ctx := context.WithValue(context.Background(), launch.RateLimiterLimiterNameContextKey, handler)
+	if hint >= 0 {
+		if hint > 0 {
+			clientID = w.clients[hint-1]
+		}
+
+		ctx = context.WithValue(ctx, launch.RateLimiterClientIDContextKey, clientID)
+	}
+
+	node := x.nodeOf[addr.String()]
+	desc := fmt.Sprintf("client=%q node=%q", clientID, node)
+	fmt.Fprintf(&x.fp, "|R%d,%d,%d,%v", ai, hi, hint, reg)
+
+	// expected
+	want, kinds := c36Select(cfg, addr.IP, handler, clientID, node, x.ms, false)
+	wantStrict, _ := c36Select(cfg, addr.IP, handler, clientID, node, x.ms, true)
+
+	if kinds >= 2 {
+		x.nontriv = true
+	}
+
+	// run
+	fcalled := false
+	var res launch.RateLimiterResult
+	hasRes := false
+
+	grab := func(c context.Context) {
+		if c == nil {
+			return
+		}
+
+		if f, ok := c.Value(launch.RateLimiterResultContextKey).(func() launch.RateLimiterResult); ok {
+			res = f()
+			hasRes = true
+		}
+	}
+
+	t0 := time.Now()
+	rctx, ferr := x.h.Func(ctx, addr, func(ictx context.Context) (context.Context, error) {
+		fcalled = true
+		grab(ictx)
+
+		if reg != nil {
+			return context.WithValue(ictx, isaacnetwork.ContextKeyNodeChallengedNode, reg), nil
+		}
+
+		return ictx, nil
+	})
+	t1 := time.Now()
+
+	if !fcalled {
+		grab(rctx)
+	}
+
+	allowed := fcalled
+
+	switch {
+	case !hasRes:
+		t.Fatalf("harness: no RateLimiterResult in the context (handler=%s)", handler)
+	case fcalled && ferr != nil, !fcalled && !errors.Is(ferr, launch.ErrRateLimited):
+		t.Fatalf("harness: unexpected outcome called=%v err=%v", fcalled, ferr)
+	case res.Allowed != allowed:
+		r.Violation(t, "result-allowed-flag", "result says allowed=%v but the handler was called=%v", res.Allowed, fcalled)
+	}
+
+	key := addr.String() + "|" + handler
+
+	s := x.streams[key]
+	if s == nil {
+		s = &c36Stream{addr: addr.String(), handler: handler}
+		x.streams[key] = s
+		x.order = append(x.order, s)
+	}
+
+	got := want
+
+	switch {
+	case c36Observed(res, want):
+	case c36Observed(res, wantStrict):
+		got = wantStrict
+		x.classes["net-first-containing-net-has-no-rule"] = true
+	default:
+		sig := fmt.Sprintf("selection-want-%s-got-%s", want.Typ, res.RulesetType)
+
+		switch {
+		case !s.has:
+		case res.RulesetType != s.prevType:
+		case want.Typ != s.prevType:
+			// the limiter cached for this (addr, handler) keeps its rule kind although another kind now has precedence
+			sig = "cached-" + s.prevType + "-limiter-reused"
+		case res.Limiter == s.prevLimiter && res.RulesetDesc == s.prevDesc:
+			// same kind, but the previous request's rule instead of the one that matches now
+			sig = "cached-" + s.prevType + "-limiter-reused"
+
+			if cfg.ViaJSON[want.Typ] && s.prevEpoch != x.epoch {
+				sig = "decoded-ruleset-update-ignored"
+			}
+		}
+
+		s.tainted = true
+		x.classes["tainted"] = true
+
+		r.Violation(t, sig,
+			"request #%d addr=%s handler=%s client-id=%q node=%q: limiter used = type %q limiter %q desc %q; the statement selects %s. previous request on this (addr,handler): type %q limiter %q (rule sets / membership / node changed since: %v). rules: %s; initial rules: %s",
+			len(s.events), addr, handler, clientID, node, res.RulesetType, res.Limiter, res.RulesetDesc, want,
+			s.prevType, s.prevLimiter, s.prevEpoch != x.epoch, x.cfgDesc, x.initial)
+	}
+
+	s.has = true
+	s.prevType, s.prevLimiter, s.prevDesc, s.prevEpoch = res.RulesetType, res.Limiter, res.RulesetDesc, x.epoch
+
+	s.events = append(s.events, c36Event{
+		t0: t0, t1: t1, allowed: allowed, match: got, desc: desc,
+		key: fmt.Sprintf("%d|%s", x.epoch, got),
+	})
+
+	r.Class("selected:"+got.Typ, 1)
+	r.Class("rulekind:"+got.Rule.Kind, 1)
+
+	if allowed {
+		r.Class("allowed", 1)
+	} else {
+		r.Class("rejected", 1)
+	}
+
+	if len(x.sample) < 12 {
+		x.sample = append(x.sample, fmt.Sprintf("%s %s %s -> %s allowed=%v", addr, handler, desc, got, allowed))
+	}
+
+	// node registration happens after an allowed request that carried a node challenge; the first one stays
+	if allowed && reg != nil {
+		if _, found := x.nodeOf[addr.String()]; !found {
+			x.nodeOf[addr.String()] = reg.String()
+			x.epoch++
+			x.classes["node-registered"] = true
+		}
+	}
+}
+
+// finish judges the enforcement clause and records the case.
+func (x *c36Run) finish(t ev.TB, extra map[string]any) {
+	for _, s := range x.order {
+		c36Enforce(t, x.r, s, x.cfgDesc)
+
+		if len(s.events) >= 8 {
+			x.classes["stream>=8"] = true
+		}
+	}
+
+	cl := make([]string, 0, len(x.classes))
+	for c := range x.classes {
+		cl = append(cl, c)
+	}
+
+	sort.Strings(cl)
+	x.r.Case(x.fp.String(), x.nontriv, cl...)
+
+	if x.nontriv && x.r.WantSample() {
+		m := map[string]any{"rules": x.initial, "first_requests": x.sample}
+		for k, v := range extra {
+			m[k] = v
+		}
+
+		x.r.Sample(m)
+	}
+}
+
+func c36DefaultOnly(r c36Rule) c36Map { return c36Map{D: &r} }
+
 func TestC36(t *testing.T) {
 	r := ev.Start(t, "C36")
 	defer r.Finish()
 	r.Rule("rule sets drawn per kind (client-id map for c1/c2, 0..3 ordered possibly overlapping CIDRs, node map for n1/n2, suffrage map + membership function, " +
 		"default map with/without default entry), rules {nolimit, 0, burst 1..4 per unique duration}, each set built by constructor or decoded from JSON; " +
 		"40 (quick) / 60 steps: requests through RateLimitHandler.Func (handler name, client id absent/empty/c1..c3 in constant, alternating or random pattern, " +
-		"6 UDP addresses, node registration through the challenged-node context value), rule-set updates, membership / suffrage-state changes, 1-3 ms sleeps. " +
+		"6 UDP addresses, node registration through the challenged-node context value), rule-set updates, membership / suffrage-state changes, 1-3 ms sleeps; " +
+		"plus 5 directed scenarios (precedence ladder, client-id change, client-id after net, decoded suffrage update, alternating client id). " +
 		"Oracle (a) every request: RateLimiterResult (ruleset type, limiter, desc) = the statement's precedence on the current rule sets; " +
 		"(b) per (addr, handler, selected rule) between configuration changes: allowed(window) <= burst + rate*window + 1 on the real clock, reject-all allows none, unlimited rejects none. " +
 		"non-trivial: some request of the case matches >= 2 of {clientid, net, node, suffrage, default map}; distinct by (rule sets, step sequence)")
@@ -666,7 +920,110 @@ func TestC36(t *testing.T) {
 	w := c36NewWorld()
 	nSteps := r.N(40, 60)
 
-	r.Checks(1200, 40000)
+	// ---- A. directed scenarios (each is also the minimal form of a finding of the random part)
+	t.Run("directed", func(t *testing.T) {
+		if r.Shard != 0 {
+			return
+		}
+
+		slow := func(burst, id int) c36Rule { return c36Rule{Kind: "bd", Burst: burst, Ms: 60000 + id} }
+		n1 := w.nodes[0]
+		base := func() *c36Config {
+			return &c36Config{
+				ViaJSON:  map[string]bool{},
+				ClientID: map[string]c36Map{}, Nodes: map[string]c36Map{},
+				Default: c36DefaultOnly(slow(2, 9)),
+			}
+		}
+
+		// 1. precedence ladder on fresh (addr, handler) pairs: every kind matches, kinds are removed from the top
+		{
+			cfg := base()
+			cfg.HasClientID, cfg.ClientID = true, map[string]c36Map{"c1": c36DefaultOnly(slow(1, 1))}
+			cfg.HasNets, cfg.Nets = true, []c36Net{{"10.0.0.0/24", c36DefaultOnly(slow(2, 2))}, {"10.0.0.0/8", c36DefaultOnly(slow(3, 3))}}
+			cfg.HasNodes, cfg.Nodes = true, map[string]c36Map{n1.String(): c36DefaultOnly(slow(4, 4))}
+			cfg.Suffrage = c36DefaultOnly(slow(3, 5))
+
+			x := c36NewRun(t, r, w, cfg, map[string]bool{n1.String(): true})
+			x.request(t, 0, 0, 0, n1)  // registers n1 for 10.0.0.1:4001
+			x.request(t, 0, 1, 1, nil) // fresh handler: client id wins
+			x.cfg.HasClientID = false
+			x.updated(t, "clientid")
+			x.request(t, 0, 2, 1, nil) // fresh handler: first net wins
+			x.cfg.HasNets = false
+			x.updated(t, "net")
+			x.request(t, 1, 0, 0, n1)  // other port: registers n1 there
+			x.request(t, 1, 1, 1, nil) // node rule
+			x.cfg.HasNodes = false
+			x.updated(t, "node")
+			x.request(t, 1, 2, 1, nil) // suffrage rule
+			x.cfg.Suffrage = c36Map{}
+			x.updated(t, "suffrage")
+			x.request(t, 2, 0, 1, nil) // default map
+			x.cfg.Default = c36Map{M: map[string]c36Rule{w.handlers[1]: slow(1, 6)}}
+			x.updated(t, "default")
+			x.request(t, 2, 2, 1, nil) // built-in default
+			x.finish(t, map[string]any{"scenario": "ladder"})
+		}
+
+		// 2. the client id changes between two requests of one (addr, handler)
+		{
+			cfg := base()
+			cfg.HasClientID = true
+			cfg.ClientID = map[string]c36Map{"c1": c36DefaultOnly(slow(1, 1)), "c2": c36DefaultOnly(slow(3, 2))}
+
+			x := c36NewRun(t, r, w, cfg, map[string]bool{})
+			x.request(t, 0, 0, 1, nil)
+			x.request(t, 0, 0, 2, nil)
+			x.request(t, 0, 0, 3, nil) // c3 has no rule: default map
+			x.finish(t, map[string]any{"scenario": "client-id-change"})
+		}
+
+		// 3. a request without client id, then one with a client id that has a rule, from an address inside a configured net
+		{
+			cfg := base()
+			cfg.HasClientID, cfg.ClientID = true, map[string]c36Map{"c1": c36DefaultOnly(slow(1, 1))}
+			cfg.HasNets, cfg.Nets = true, []c36Net{{"10.0.0.0/8", c36DefaultOnly(slow(4, 2))}}
+
+			x := c36NewRun(t, r, w, cfg, map[string]bool{})
+			x.request(t, 0, 0, -1, nil)
+			x.request(t, 0, 0, 1, nil)
+			x.finish(t, map[string]any{"scenario": "client-id-after-net"})
+		}
+
+		// 4. the suffrage rule set is replaced at run time by one decoded from JSON (what the node-write handler does)
+		{
+			cfg := base()
+			cfg.Suffrage = c36DefaultOnly(slow(1, 1))
+			cfg.ViaJSON["suffrage"] = true
+
+			x := c36NewRun(t, r, w, cfg, map[string]bool{n1.String(): true})
+			x.request(t, 0, 0, -1, n1)
+			x.request(t, 0, 0, -1, nil)
+			x.cfg.Suffrage = c36DefaultOnly(slow(2, 2))
+			x.updated(t, "suffrage")
+			x.request(t, 0, 0, -1, nil)
+			x.finish(t, map[string]any{"scenario": "decoded-suffrage-update"})
+		}
+
+		// 5. a client alternates between its client id and none: two rules with burst 1 per minute each
+		{
+			cfg := base()
+			cfg.HasClientID, cfg.ClientID = true, map[string]c36Map{"c1": c36DefaultOnly(slow(1, 1))}
+			cfg.Default = c36DefaultOnly(slow(1, 2))
+
+			x := c36NewRun(t, r, w, cfg, map[string]bool{})
+			for i := 0; i < 6; i++ {
+				x.request(t, 0, 0, 1, nil)
+				x.request(t, 0, 0, 0, nil)
+			}
+
+			x.finish(t, map[string]any{"scenario": "alternating-client-id"})
+		}
+	})
+
+	// ---- B. random rule sets and streams
+	r.Checks(3000, 120000)
 	r.ShrinkTime(20 * time.Second)
 	rapid.Check(t, func(rt *rapid.T) {
 		g := &c36Gen{rt: rt, w: w}
@@ -676,102 +1033,55 @@ func TestC36(t *testing.T) {
 			g.kind(cfg, k, true)
 		}
 
-		ms := &c36Membership{members: map[string]bool{}}
+		members := map[string]bool{}
 		for _, n := range w.nodes {
-			ms.members[n.String()] = rapid.Bool().Draw(rt, "member")
+			members[n.String()] = rapid.Bool().Draw(rt, "member")
 		}
 
-		newHash := func() {
-			ms.n++
-			ms.hash = valuehash.NewSHA256([]byte(fmt.Sprintf("suffrage-state-%d", ms.n)))
-		}
-		newHash()
+		x := c36NewRun(rt, r, w, cfg, members)
 
-		rules := launch.NewRateLimiterRules()
-		rules.SetIsInConsensusNodesFunc(func() (util.Hash, func(base.Address) bool, error) {
-			if ms.err {
-				return nil, nil, errors.New("proof not found")
-			}
-
-			return ms.hash, func(a base.Address) bool { return ms.members[a.String()] }, nil
-		})
-
-		for _, k := range c36Kinds {
-			c36Apply(rt, rules, cfg, k)
-		}
-
-		args := launch.NewRateLimitHandlerArgs()
-		args.Rules = rules
-
-		h, err := launch.NewRateLimitHandler(args)
-		if err != nil {
-			rt.Fatalf("harness: %v", err)
-		}
-
-		var fp strings.Builder
-		fp.WriteString(cfg.String())
-
-		cfgDesc := cfg.String()
-		initialDesc := cfgDesc
-
-		// hint options: -1 = the client-id key is absent from the context, 0 = empty id, 1..3 = c1..c3
 		hintGen := rapid.IntRange(-1, 3)
 		focusAddr := rapid.IntRange(0, len(w.addrs)-1).Draw(rt, "focusAddr")
 		focusHandler := rapid.IntRange(0, len(w.handlers)-1).Draw(rt, "focusHandler")
-		pattern := rapid.SampledFrom([]string{"const", "alt", "alt", "random"}).Draw(rt, "pattern")
+		pattern := rapid.SampledFrom([]string{"alt", "const", "random", "alt"}).Draw(rt, "pattern")
 		hintA := hintGen.Draw(rt, "hintA")
 		hintB := hintGen.Draw(rt, "hintB")
 		focusN := 0
 
-		streams := map[string]*c36Stream{}
-		var streamOrder []*c36Stream
-		nodeOf := map[string]string{}
-		epoch := 0
-
-		classes := map[string]bool{"pattern:" + pattern: true}
-		nontrivial := false
-		var sampleReqs []string
+		x.classes["pattern:"+pattern] = true
 
 		for step := 0; step < nSteps; step++ {
 			switch op := rapid.IntRange(0, 99).Draw(rt, "op"); {
-			case op < 6: // rule-set update
+			case op >= 93: // rule-set update (rapid favours small draws: the common operation, a request, takes the low values)
 				k := rapid.SampledFrom(c36Kinds).Draw(rt, "updateKind")
 				g.kind(cfg, k, false)
-				c36Apply(rt, rules, cfg, k)
-				epoch++
-				cfgDesc = cfg.String()
-				fmt.Fprintf(&fp, "|U:%s", cfgDesc)
-				classes["update:"+k] = true
+				x.updated(rt, k)
 
 				continue
-			case op < 10: // membership / suffrage state
+			case op >= 88: // membership / suffrage state
 				switch rapid.IntRange(0, 3).Draw(rt, "memberOp") {
 				case 0:
-					ms.err = !ms.err
-					fmt.Fprintf(&fp, "|Merr=%v", ms.err)
+					x.ms.err = !x.ms.err
+					x.membership(fmt.Sprintf("err=%v", x.ms.err))
 				case 1:
-					newHash()
-					fmt.Fprintf(&fp, "|Mhash")
+					x.newHash()
+					x.membership("hash")
 				default:
 					n := rapid.SampledFrom(w.nodes).Draw(rt, "memberNode").String()
-					ms.members[n] = !ms.members[n]
-					newHash() // the suffrage state changes with its members
-					fmt.Fprintf(&fp, "|M%s=%v", n, ms.members[n])
+					x.ms.members[n] = !x.ms.members[n]
+					x.newHash() // the suffrage state changes with its members
+					x.membership(fmt.Sprintf("%s=%v", n, x.ms.members[n]))
 				}
 
-				epoch++
-				classes["membership-change"] = true
-
 				continue
-			case op < 16:
+			case op >= 82:
 				d := rapid.IntRange(1, 3).Draw(rt, "sleepMs")
 				time.Sleep(time.Duration(d) * time.Millisecond)
-				fmt.Fprintf(&fp, "|S%d", d)
+				fmt.Fprintf(&x.fp, "|S%d", d)
 
 				continue
 			}
 
-			// ---- a request
 			ai, hi, hint := focusAddr, focusHandler, hintA
 
 			if rapid.IntRange(0, 9).Draw(rt, "onFocus") < 7 {
@@ -792,165 +1102,13 @@ func TestC36(t *testing.T) {
 			}
 
 			var reg base.Address
-			if rapid.IntRange(0, 9).Draw(rt, "challenge") < 2 {
+			if rapid.IntRange(0, 9).Draw(rt, "challenge") >= 8 {
 				reg = rapid.SampledFrom(w.nodes).Draw(rt, "challengeNode")
 			}
 
-			addr, handler := w.addrs[ai], w.handlers[hi]
-			clientID := ""
-
-			ctx := context.WithValue(context.Background(), launch.RateLimiterLimiterNameContextKey, handler)
-			if hint >= 0 {
-				if hint > 0 {
-					clientID = w.clients[hint-1]
-				}
-
-				ctx = context.WithValue(ctx, launch.RateLimiterClientIDContextKey, clientID)
-			}
-
-			desc := fmt.Sprintf("client=%q node=%q", clientID, nodeOf[addr.String()])
-			fmt.Fprintf(&fp, "|R%d,%d,%d,%v", ai, hi, hint, reg)
-
-			// expected
-			want, kinds := c36Select(cfg, addr.IP, handler, clientID, nodeOf[addr.String()], ms, false)
-			wantStrict, _ := c36Select(cfg, addr.IP, handler, clientID, nodeOf[addr.String()], ms, true)
-
-			if kinds >= 2 {
-				nontrivial = true
-			}
-
-			// run
-			fcalled := false
-			var res launch.RateLimiterResult
-			hasRes := false
-
-			grab := func(c context.Context) {
-				if c == nil {
-					return
-				}
-
-				if f, ok := c.Value(launch.RateLimiterResultContextKey).(func() launch.RateLimiterResult); ok {
-					res = f()
-					hasRes = true
-				}
-			}
-
-			t0 := time.Now()
-			rctx, ferr := h.Func(ctx, addr, func(ictx context.Context) (context.Context, error) {
-				fcalled = true
-				grab(ictx)
-
-				if reg != nil {
-					return context.WithValue(ictx, isaacnetwork.ContextKeyNodeChallengedNode, reg), nil
-				}
-
-				return ictx, nil
-			})
-			t1 := time.Now()
-
-			if !fcalled {
-				grab(rctx)
-			}
-
-			allowed := fcalled
-
-			switch {
-			case !hasRes:
-				rt.Fatalf("harness: no RateLimiterResult in the context (handler=%s)", handler)
-			case fcalled && ferr != nil, !fcalled && !errors.Is(ferr, launch.ErrRateLimited):
-				rt.Fatalf("harness: unexpected outcome called=%v err=%v", fcalled, ferr)
-			case res.Allowed != allowed:
-				r.Violation(rt, "result-allowed-flag", "result says allowed=%v but the handler was called=%v", res.Allowed, fcalled)
-			}
-
-			key := addr.String() + "|" + handler
-
-			s := streams[key]
-			if s == nil {
-				s = &c36Stream{addr: addr.String(), handler: handler}
-				streams[key] = s
-				streamOrder = append(streamOrder, s)
-			}
-
-			got := want
-
-			switch {
-			case c36Observed(res, want):
-			case c36Observed(res, wantStrict):
-				got = wantStrict
-				classes["net-first-containing-net-has-no-rule"] = true
-			default:
-				sig := fmt.Sprintf("selection-want-%s-got-%s", want.Typ, res.RulesetType)
-
-				switch {
-				case !s.has:
-				case res.RulesetType == s.prevType && res.Limiter == s.prevLimiter && res.RulesetDesc == s.prevDesc:
-					// the limiter of the previous request on this (addr, handler) was used again
-					sig = "cached-" + s.prevType + "-limiter-reused"
-
-					if want.Typ == s.prevType && cfg.ViaJSON[want.Typ] && s.prevEpoch != epoch {
-						sig = "decoded-ruleset-update-ignored"
-					}
-				}
-
-				s.tainted = true
-				classes["tainted"] = true
-
-				r.Violation(rt, sig,
-					"request #%d addr=%s handler=%s client-id=%q node=%q: limiter used = type %q limiter %q desc %q; the statement selects %s. previous request on this (addr,handler): type %q limiter %q (rule sets changed since: %v). rules: %s; initial rules: %s",
-					len(s.events), addr, handler, clientID, nodeOf[addr.String()], res.RulesetType, res.Limiter, res.RulesetDesc, want,
-					s.prevType, s.prevLimiter, s.prevEpoch != epoch, cfgDesc, initialDesc)
-			}
-
-			s.has = true
-			s.prevType, s.prevLimiter, s.prevDesc, s.prevEpoch = res.RulesetType, res.Limiter, res.RulesetDesc, epoch
-
-			s.events = append(s.events, c36Event{
-				t0: t0, t1: t1, allowed: allowed, match: got, desc: desc,
-				key: fmt.Sprintf("%d|%s", epoch, got),
-			})
-
-			r.Class("selected:"+got.Typ, 1)
-			r.Class("rulekind:"+got.Rule.Kind, 1)
-
-			if allowed {
-				r.Class("allowed", 1)
-			} else {
-				r.Class("rejected", 1)
-			}
-
-			if len(sampleReqs) < 12 {
-				sampleReqs = append(sampleReqs, fmt.Sprintf("%s %s %s -> %s allowed=%v", addr, handler, desc, got, allowed))
-			}
-
-			// node registration happens after an allowed request that carried a node challenge; the first one stays
-			if allowed && reg != nil {
-				if _, found := nodeOf[addr.String()]; !found {
-					nodeOf[addr.String()] = reg.String()
-					epoch++
-					classes["node-registered"] = true
-				}
-			}
+			x.request(rt, ai, hi, hint, reg)
 		}
 
-		for _, s := range streamOrder {
-			c36Enforce(rt, r, s, cfgDesc)
-
-			if len(s.events) >= 8 {
-				classes["stream>=8"] = true
-			}
-		}
-
-		cl := make([]string, 0, len(classes))
-		for c := range classes {
-			cl = append(cl, c)
-		}
-
-		sort.Strings(cl)
-		r.Case(fp.String(), nontrivial, cl...)
-
-		if nontrivial && r.WantSample() {
-			r.Sample(map[string]any{"rules": initialDesc, "pattern": pattern, "first_requests": sampleReqs})
-		}
+		x.finish(rt, map[string]any{"pattern": pattern})
 	})
 }
